@@ -5,6 +5,7 @@ import (
 	"context"
 	"encoding/json"
 	"errors"
+	"fmt"
 	"reflect"
 	"runtime"
 	"sort"
@@ -15,6 +16,7 @@ import (
 
 	"github.com/gorilla/websocket"
 	"github.com/samsarahq/thunder/graphql"
+	"github.com/samsarahq/thunder/reactive"
 	"github.com/samsarahq/thunder/verifhook"
 )
 
@@ -87,11 +89,19 @@ type Recorder struct {
 
 	proceedArmed int
 	proceedRel   chan struct{}
+
+	// invalidations on their way through the dependency graph of this case (guarded by regMu): a node that was handed
+	// to invalidate() / strobe() has a snapshot of dependants, each of which is going to be invalidated in turn
+	pend     map[uintptr]int  // node -> invalidate() calls announced (it is in a snapshot) and not yet begun
+	pendAll  int              // sum of pend
+	marked   map[uintptr]bool // nodes that have been invalidated
+	pubNode  map[int]uintptr  // generation -> node of the computation its rerunner published last
 }
 
 func NewRecorder() *Recorder {
 	return &Recorder{changed: make(chan struct{}), tagGen: map[uintptr]int{}, gRun: map[int64]int{}, runGen: map[int]int{},
-		pausedAt: map[string]chan struct{}{}, pauseHit: map[string]chan struct{}{}, readerG: -1}
+		pausedAt: map[string]chan struct{}{}, pauseHit: map[string]chan struct{}{}, readerG: -1,
+		pend: map[uintptr]int{}, marked: map[uintptr]bool{}, pubNode: map[int]uintptr{}}
 }
 
 func (r *Recorder) addLocked(e Event) {
@@ -159,7 +169,101 @@ func unregister(c interface{}) {
 			delete(rerunnerGen, k)
 		}
 	}
+	for k, v := range nodeOwner {
+		if v == r {
+			delete(nodeOwner, k)
+		}
+	}
 	regMu.Unlock()
+}
+
+// ---- invalidations in progress (hooks in reactive/graph.go) ----
+
+var nodeOwner = map[uintptr]*Recorder{} // node of the dependency graph -> case (guarded by regMu)
+
+// ownNode tells that a resource belongs to a case; dependants inherit the owner when an invalidation reaches them.
+func ownNode(res *reactive.Resource, r *Recorder) {
+	regMu.Lock()
+	nodeOwner[reflect.ValueOf(res).Pointer()] = r // the node is the first field of the Resource
+	regMu.Unlock()
+}
+
+func nodePtr(x interface{}) uintptr {
+	v := reflect.ValueOf(x)
+	if v.Kind() != reflect.Ptr {
+		return 0
+	}
+	return v.Pointer()
+}
+
+// announce: every node of the snapshot [out] is going to get an invalidate() call.
+func announce(r *Recorder, out interface{}) {
+	v := reflect.ValueOf(out)
+	if v.Kind() != reflect.Slice {
+		return
+	}
+	for i := 0; i < v.Len(); i++ {
+		p := v.Index(i).Pointer()
+		nodeOwner[p] = r
+		r.pend[p]++
+		r.pendAll++
+	}
+}
+
+func begun(r *Recorder, n uintptr) {
+	if r.pend[n] > 0 {
+		r.pend[n]--
+		r.pendAll--
+		if r.pend[n] == 0 {
+			delete(r.pend, n)
+		}
+	}
+}
+
+// graphHook follows strobe / invalidate through the graph. Returns the recorder to wake when nothing is pending any more.
+func graphHook(point string, args []interface{}) {
+	n := nodePtr(args[0])
+	regMu.Lock()
+	r := nodeOwner[n]
+	if r == nil {
+		regMu.Unlock()
+		return
+	}
+	switch point {
+	case "reactive.strobe.snapshot":
+		if len(args) > 1 {
+			announce(r, args[1])
+		}
+	case "reactive.invalidate.mark":
+		begun(r, n)
+		r.marked[n] = true
+		if len(args) > 1 {
+			announce(r, args[1])
+		}
+	case "reactive.invalidate.noop":
+		begun(r, n)
+	}
+	idle := r.pendAll == 0
+	regMu.Unlock()
+	if idle {
+		r.add(Event{Kind: "inv-done"})
+	}
+}
+
+// InvalidationsPending: an invalidation is still on its way through the graph of this case, or the computation a
+// live generation of gens published last has been invalidated (its re-run is due).
+func (r *Recorder) InvalidationsPending(gens []int) (bool, string) {
+	regMu.Lock()
+	defer regMu.Unlock()
+	if r.pendAll > 0 {
+		return true, fmt.Sprintf("%d invalidate() calls are announced and have not begun", r.pendAll)
+	}
+	for _, g := range gens {
+		if p, ok := r.pubNode[g]; ok && r.marked[p] {
+			return true, fmt.Sprintf("the computation generation %d published last is invalidated: a re-run is due", g)
+		}
+	}
+	return false, ""
 }
 
 func init() {
@@ -188,11 +292,22 @@ func init() {
 				regMu.Unlock()
 			}
 			return
+		case "reactive.strobe.snapshot", "reactive.invalidate.mark", "reactive.invalidate.noop":
+			graphHook(point, args)
+			return
 		case "reactive.run.publish", "reactive.run.failed", "reactive.run.retry", "reactive.stop.mark", "reactive.run.locked":
 			// the interface of a rerunner, as the reactive package itself reports it (Server/Iface.v)
 			regMu.Lock()
 			g, ok := rerunnerGen[args[0]]
 			regMu.Unlock()
+			if ok && point == "reactive.run.publish" && len(args) > 2 {
+				if p := nodePtr(args[2]); p != 0 {
+					regMu.Lock()
+					nodeOwner[p] = g.rec
+					g.rec.pubNode[g.gen] = p
+					regMu.Unlock()
+				}
+			}
 			if ok {
 				flag := false
 				if len(args) > 1 {
